@@ -34,7 +34,11 @@ func cmdBenign(args []string) int {
 		return 2
 	}
 	kind := args[0]
-	P, S, _ := setup("/repo", "/verif")
+	repoDir := os.Getenv("GVC_REPO") // scratch worktree for trying the rewriter itself
+	if repoDir == "" {
+		repoDir = "/repo"
+	}
+	P, S, _ := setup(repoDir, "/verif")
 	only := map[string]bool{}
 	for _, a := range args[1:] {
 		pkg, key := splitKey(a)
@@ -221,6 +225,57 @@ func invertGuardEdits(fset *token.FileSet, decl *ast.FuncDecl, src []byte) []edi
 			})
 		}
 		if hasLabel {
+			continue
+		}
+		// a `x, err := ...` in the rest that re-uses a variable declared earlier at function level would, once moved into
+		// the new block, declare a fresh one instead (and leave the outer one unused or unassigned): not behaviour-preserving
+		declared := map[string]bool{}
+		addFields := func(fl *ast.FieldList) {
+			if fl == nil {
+				return
+			}
+			for _, f := range fl.List {
+				for _, n := range f.Names {
+					declared[n.Name] = true
+				}
+			}
+		}
+		addFields(decl.Recv)
+		addFields(decl.Type.Params)
+		addFields(decl.Type.Results)
+		for _, e := range list[:i+1] {
+			switch d := e.(type) {
+			case *ast.AssignStmt:
+				if d.Tok == token.DEFINE {
+					for _, l := range d.Lhs {
+						if id, ok := l.(*ast.Ident); ok {
+							declared[id.Name] = true
+						}
+					}
+				}
+			case *ast.DeclStmt:
+				if gd, ok := d.Decl.(*ast.GenDecl); ok {
+					for _, sp := range gd.Specs {
+						if vs, ok := sp.(*ast.ValueSpec); ok {
+							for _, n := range vs.Names {
+								declared[n.Name] = true
+							}
+						}
+					}
+				}
+			}
+		}
+		redeclares := false
+		for _, r := range list[i+1:] {
+			if as, ok := r.(*ast.AssignStmt); ok && as.Tok == token.DEFINE {
+				for _, l := range as.Lhs {
+					if id, ok := l.(*ast.Ident); ok && id.Name != "_" && declared[id.Name] {
+						redeclares = true
+					}
+				}
+			}
+		}
+		if redeclares {
 			continue
 		}
 		c0, c1 := fset.Position(st.Cond.Pos()).Offset, fset.Position(st.Cond.End()).Offset
